@@ -81,6 +81,20 @@ def streams(ctx: Check, profiles: list[str], n_random: int, exh_len: int, n_malf
             for key, detail in orc(c, o):
                 ctx.fail(Failure(key, {"kind": "cmdmgr", "lines": c}, detail))
                 break
+    # the decidable invariants of OPM.Model.CmdMgrSpec (object invariant, lifecycle discipline, record/mark
+    # coherence incl. the not-proved "started => conclusive or still held") evaluated by the model on every stream
+    from vp.core import drive
+    chk_cases = [[c[0]] + [x for ln in c[1:] for x in (ln, "chk")] for c, _ in all_cases]
+    bad = 0
+    for c, out in zip(chk_cases, drive(DRIVER, chk_cases)):
+        for ln, a in zip(c, out):
+            if ln == "chk" and "=0" in a:
+                bad += 1
+                if bad == 1:
+                    ctx.proof_broken.append("model invariant evaluates to false: " + a + " in " + json.dumps(c[:40]))
+                break
+    ctx.extra["model_invariants_evaluated_on_cases"] = len(chk_cases)
+    ctx.extra["model_invariant_failures"] = bad
 
 
 def load_corpus(prop_id: str) -> list[dict[str, Any]]:
@@ -124,6 +138,9 @@ def engine_monitor(ctx: Check, kind: str, n: int, oracle: Callable[[dict, dict],
     cases += [gen_engine_case(ctx.rng, kind) for _ in range(n)]
 
     def run(case):
+        if kind == "c10" and any(op == ["user", "Restart"] for ops in case["sched"].values() for op in ops):
+            from harness.cmd_engine import reference_inits
+            case = dict(case, _reference=reference_inits(case))
         res = execute(case)
         ctx.count("engine-run")
         if any(len([e for e in t["events"] if e[1] == "exec"]) >= 2 for t in res["ticks"]):
@@ -134,5 +151,39 @@ def engine_monitor(ctx: Check, kind: str, n: int, oracle: Callable[[dict, dict],
             if "result" in r and r["op"][0] in ("cancel", "force"):
                 ctx.count(f"engine-{r['op'][0]}:{'accepted' if r['result'] == 'ok' else 'rejected'}")
         found = oracle(case, res)
-        return [Failure(k, case, d) for k, d in found[:3]] or None
+        pub = {k: v for k, v in case.items() if k != "_reference"}
+        return [Failure(k, pub, d) for k, d in found[:3]] or None
     ctx.monitor(cases, run, impl_timeout=60.0)
+
+
+def replay_case(obj: dict[str, Any], prop: str) -> int:
+    """Re-run one replay file: prints what the implementation and the model do and the oracle verdicts."""
+    from vp.core import drive, quiet_logging
+    quiet_logging()
+    case = obj.get("case") or (obj.get("disagreements") or [{}])[0].get("case")
+    if case is None:
+        print(obj)
+        return 0
+    if isinstance(case, dict) and case.get("kind") == "engine":
+        from harness import cmd_engine
+        res = cmd_engine.execute(case)
+        for t in res["ticks"]:
+            print(t["tick"], t["events"], t["instances"], t["sys"])
+        for r in res["requests"]:
+            print("request", r.get("op"), r.get("result"), r.get("item"))
+        found = {"C10": cmd_engine.oracle_c10, "C11": lambda c, r: cmd_engine.oracle_c11(r),
+                 "C12": cmd_engine.oracle_c12}[prop](case, res)
+        print("oracle:", found)
+        return 1 if found else 0
+    lines = case["lines"] if isinstance(case, dict) else case
+    from harness import cmdmgr_streams as S
+    out = impl(lines)
+    mout = drive(DRIVER, [lines])[0]
+    for ln, a, m in zip(lines, out, mout):
+        print(ln.replace("\t", " "))
+        print("   impl :", a)
+        if a != m:
+            print("   MODEL:", m)
+    found = {"C10": S.oracle_c10, "C11": S.oracle_c11, "C12": S.oracle_c12}[prop](lines, out)
+    print("oracle:", found)
+    return 1 if found or out != mout else 0
